@@ -30,9 +30,9 @@ import (
 func init() {
 	core.Register(&core.Prop{
 		ID: "C09", Level: "exploration",
-		Rule: "cases are byte strings fed to one entry point: ParseMessage / ParseMessageWithDataDictionary (+ all typed getters, GetGroup, Validate under shipped dictionaries and validator settings), the stream framer with hostile readers, ParseSettings (+ engine construction) and datadictionary.ParseSrc, and framed messages fed to a session in every state; inputs are grammar-aware mutations (truncation, empty values, missing trailer, huge/negative/empty lengths and counts, XMLData, duplicated and reordered fields, reused Message objects) of generated conforming messages and acceptance scripts; non-trivial = input that parses past the first three fields or reaches a state handler; distinct by (entry point, outcome class)",
+		Rule:        "cases are byte strings fed to one entry point: ParseMessage / ParseMessageWithDataDictionary (+ all typed getters, GetGroup, Validate under shipped dictionaries and validator settings), the stream framer with hostile readers, ParseSettings (+ engine construction) and datadictionary.ParseSrc, and framed messages fed to a session in every state; inputs are grammar-aware mutations (truncation, empty values, missing trailer, huge/negative/empty lengths and counts, XMLData, duplicated and reordered fields, reused Message objects) of generated conforming messages and acceptance scripts; non-trivial = input that parses past the first three fields or reaches a state handler; distinct by (entry point, outcome class)",
 		Assumptions: []string{"a hang is one synchronous call exceeding 30 s (these calls take microseconds)", "getters are exercised on successfully parsed messages"},
-		FloorQuick: 200, FloorThorough: 2000,
+		FloorQuick:  200, FloorThorough: 2000,
 		Parts: []core.Part{
 			{Name: "parse", Race: true, Run: runParse, Replay: replayParse},
 			{Name: "stream", Race: true, Run: runStream},
@@ -582,13 +582,15 @@ func mutateText(r *rand.Rand, s string, frags []string) string {
 
 type nullApp struct{}
 
-func (nullApp) OnCreate(quickfix.SessionID)                                          {}
-func (nullApp) OnLogon(quickfix.SessionID)                                           {}
-func (nullApp) OnLogout(quickfix.SessionID)                                          {}
-func (nullApp) ToAdmin(*quickfix.Message, quickfix.SessionID)                        {}
-func (nullApp) ToApp(*quickfix.Message, quickfix.SessionID) error                    { return nil }
-func (nullApp) FromAdmin(*quickfix.Message, quickfix.SessionID) quickfix.MessageRejectError { return nil }
-func (nullApp) FromApp(*quickfix.Message, quickfix.SessionID) quickfix.MessageRejectError   { return nil }
+func (nullApp) OnCreate(quickfix.SessionID)                       {}
+func (nullApp) OnLogon(quickfix.SessionID)                        {}
+func (nullApp) OnLogout(quickfix.SessionID)                       {}
+func (nullApp) ToAdmin(*quickfix.Message, quickfix.SessionID)     {}
+func (nullApp) ToApp(*quickfix.Message, quickfix.SessionID) error { return nil }
+func (nullApp) FromAdmin(*quickfix.Message, quickfix.SessionID) quickfix.MessageRejectError {
+	return nil
+}
+func (nullApp) FromApp(*quickfix.Message, quickfix.SessionID) quickfix.MessageRejectError { return nil }
 
 const miniSpec = `<fix type="FIX" major="4" minor="2" servicepack="0">
 <header><field name="BeginString" required="Y"/><field name="BodyLength" required="Y"/><field name="MsgType" required="Y"/><group name="NoHops" required="N"><field name="HopCompID" required="N"/></group></header>
